@@ -392,8 +392,13 @@ pub fn long_skips_under_supports(g: &mut Gen) {
                 lines.push(format!("bv A it {} : N511 b N512 l b n l", what));
                 lines.push(format!("bv A it {} : b N{} l n b", what, cnt - 2));
                 lines.push(format!("bv A it {} : b N{} l n b", what, cnt - 1));
+                // skips from the BACK after items were taken from the front: in range, exactly the remainder, overshooting
+                lines.push(format!("bv A it {} : n n B{} l b n", what, cnt - 4));
+                lines.push(format!("bv A it {} : n n n B{} l b n", what, cnt - 3));
+                lines.push(format!("bv A it {} : n N600 B{} l b", what, cnt - 2));
+                lines.push(format!("bv A it {} : n B520 l B{} l b n", what, cnt - 1));
             }
-            if ones >= 1300 && sub.contains('s') { lines.push("bv A it sel 5 : b b N513 l n b l".to_string()); }
+            if ones >= 1300 && sub.contains('s') { lines.push("bv A it sel 5 : b b N513 l n b l".to_string()); lines.push(format!("bv A it sel 700 : n B{} l b", ones - 3)); lines.push(format!("bv A it sel 700 : B{} l b n", ones - 700)); }
             if ones >= 1300 && sub.contains('s') && sub.contains('r') { lines.push("bv A it succ 70 : b N700 l n l".to_string()); }
             if zeros >= 1300 && sub.contains('z') { lines.push("bv A it sel0 5 : b b N513 l n b l".to_string()); }
             g.group(lines);
